@@ -1288,4 +1288,28 @@ theorem C02_length_total (P : Prims) (v : PyVal) (n : Nat) (m : Int) (h : lenOf 
     py_simp [len_of_lenOf h, ne_int]
     by_cases hn : (n : Int) = m <;> simp [hn]
 
+/-! ### round 4: the Send slot of a generator and forward-referenced field annotations -/
+
+/-- **every sent value other than `None` goes through the Send type** — also the falsy ones (0, 0.0, '', empty containers) -/
+theorem C02_send_slot_parses (parse : PyVal → M PyVal) (v : PyVal) (h : v ≠ .none) : sendSlot parse v = parse v := by
+  cases v <;> simp [sendSlot] at h ⊢
+
+/-- `send(0)` into `Generator[int, PositiveInt, None]` is rejected, `send(1)` reaches the body unchanged -/
+theorem C02_send_slot_falsy_example (P : Prims) :
+    sendSlot (fun v => validate P [("gt", .int 0)] v) (.int 0) = .error .valueError ∧
+    sendSlot (fun v => validate P [("gt", .int 0)] v) (.int 1) = .ok (.int 1) := by
+  constructor <;> rfl
+
+/-- **a lazily resolved field keeps its `Field(...)` constraints**: every constraint given to the field is collected for the
+resolved type (first in the MRO), and the target's own constraints not re-bound by the field are collected as well -/
+theorem C02_forward_ref_keeps_field_constraints (fc : Body) (target : List Body) (key : String) (v : PyVal) (lax : Bool)
+    (hk : key ∈ Tables.constraintOrder) (hb : fc.lookup key = some (.val v lax)) :
+    (vname key lax, v) ∈ collect (resolveForwardRef fc target) :=
+  C02_inherited_collected [] target fc key v lax hk (by simp) hb
+
+theorem C02_forward_ref_example :
+    compile (resolveForwardRef [("le", .val (.int 100) false)] [[("ge", .val (.int 1) false)]]) =
+      [("ge", .int 1), ("le", .int 100)] := by
+  rfl
+
 end Utv.C02
